@@ -505,7 +505,8 @@ static Obs execute_isolated(const Spec& s) {
     struct rlimit rl; rl.rlim_cur = rl.rlim_max = (rlim_t)256 << 20; setrlimit(RLIMIT_AS, &rl);
     struct rlimit rc; rc.rlim_cur = rc.rlim_max = 0; setrlimit(RLIMIT_CORE, &rc);
     int dn = open("/dev/null", O_WRONLY); if (dn >= 0) dup2(dn, 2);  // "terminate called ..." of a dying child is noise in the shard log
-    alarm(30);
+    { struct rlimit rt; rt.rlim_cur = 30; rt.rlim_max = 31; setrlimit(RLIMIT_CPU, &rt); }   // 30 s of CPU time (SIGXCPU), load-independent;
+    alarm(600);                                                                             // the wall-clock alarm is only a backstop
     Obs o = execute(s);
     char head[160];
     snprintf(head, sizeof head, "%d %d %d %ld %d %d %d %d\n", o.threw, o.ec, (int)o.nonempty, o.rc, (int)o.exec_ok, (int)o.outputs_set, (int)o.content_ok, o.calls);
@@ -520,7 +521,7 @@ static Obs execute_isolated(const Spec& s) {
   close(fd[0]);
   int st = 0; waitpid(pid, &st, 0);
   Obs o; o.isolated = true; o.calls = 1;
-  if (WIFSIGNALED(st)) { o.died = WTERMSIG(st); o.desc = "the call did not return: process killed by signal " + std::to_string(o.died) + (o.died == SIGABRT ? " (abort, e.g. std::terminate after bad_alloc under a 256 MB limit)" : o.died == SIGALRM ? " (no answer within 30 s)" : ""); return o; }
+  if (WIFSIGNALED(st)) { o.died = WTERMSIG(st); o.desc = "the call did not return: process killed by signal " + std::to_string(o.died) + (o.died == SIGABRT ? " (abort, e.g. std::terminate after bad_alloc under a 256 MB limit)" : (o.died == SIGALRM || o.died == SIGXCPU || o.died == SIGKILL) ? " (no answer within 30 s of CPU time)" : ""); return o; }
   int ne = 0, ok = 1, os = 1, co = 1;
   size_t nl = msg.find('\n');
   if (nl == std::string::npos || sscanf(msg.c_str(), "%d %d %d %ld %d %d %d %d", &o.threw, &o.ec, &ne, &o.rc, &ok, &os, &co, &o.calls) != 8) { fprintf(stderr, "isolated child gave no parsable answer for %s\n", key_of(s).c_str()); exit(2); }
